@@ -179,7 +179,7 @@ func TestC17Concurrent(t *testing.T) {
 	for ci, cfg := range []struct {
 		l, k        int
 		cache, blnd bool
-	}{{3, 2, false, false}, {5, 3, true, true}, {4, 4, false, true}, {6, 2, true, false}} {
+	}{{3, 2, false, true}, {5, 3, true, true}, {4, 4, false, true}, {6, 2, true, false}} {
 		sub := "concurrent/tssrsa"
 		pk := ks[(ci+vlib.Seed)%2] // the two 1024-bit keys
 		pub := &pk.key.PublicKey
@@ -212,9 +212,50 @@ func TestC17Concurrent(t *testing.T) {
 			j.shares = make([]tss.SignShare, cfg.k)
 			jobs[i] = j
 		}
-		// phase 1: goroutine i signs message i with every participating (shared) KeyShare
+		// the encoding every participating key share must have once its exponent cache is filled: that of the
+		// same deal made with cache=true (before the cache is filled an uncached share has a shorter encoding)
+		cachedKeys, err := tss.Deal(vlib.NewReader(base+uint64(900+ci)), uint(cfg.l), uint(cfg.k), pk.key, true)
+		if err != nil {
+			vlib.ReportDirect(t, "C17/tssrsa/deal-error", err.Error(), nil)
+			return
+		}
+		encFull := make([][]byte, cfg.l)
+		encBare := make([][]byte, cfg.l)
+		for _, p := range players {
+			encFull[p-1], _ = cachedKeys[p-1].MarshalBinary()
+			encBare[p-1], _ = keys[p-1].MarshalBinary()
+		}
+		// phase 1: goroutine i signs message i with every participating (shared) KeyShare, while one more
+		// goroutine keeps marshalling the same key shares
 		start := make(chan struct{})
 		var wg sync.WaitGroup
+		marshalErr := ""
+		stop := make(chan struct{})
+		var mwg sync.WaitGroup
+		mwg.Add(1)
+		go func() {
+			defer mwg.Done()
+			<-start
+			marshalErr = concRecover(func() {
+				for n := 0; ; n++ {
+					select {
+					case <-stop:
+						return
+					default:
+					}
+					p := players[n%len(players)]
+					b, err := keys[p-1].MarshalBinary()
+					if err != nil {
+						marshalErr = fmt.Sprintf("MarshalBinary of key share %d during signing: %v", p, err)
+						return
+					}
+					if !bytes.Equal(b, encFull[p-1]) && !bytes.Equal(b, encBare[p-1]) {
+						marshalErr = fmt.Sprintf("key share %d marshalled while others sign is %x, dealt %x", p, b, encFull[p-1])
+						return
+					}
+				}
+			})
+		}()
 		for i, j := range jobs {
 			i, j := i, j
 			wg.Add(1)
@@ -241,6 +282,21 @@ func TestC17Concurrent(t *testing.T) {
 		}
 		close(start)
 		wg.Wait()
+		close(stop)
+		mwg.Wait()
+		if marshalErr == "" {
+			for _, p := range players {
+				if b, err := keys[p-1].MarshalBinary(); err != nil || !bytes.Equal(b, encFull[p-1]) {
+					marshalErr = fmt.Sprintf("after the concurrent signatures key share %d marshals to %x (err=%v), dealt %x", p, b, err, encFull[p-1])
+					break
+				}
+			}
+		}
+		if marshalErr != "" {
+			vlib.ReportDirect(t, "C17/concurrent/tssrsa/keyshare-changed-by-signing", fmt.Sprintf("key=%s l=%d k=%d cache=%v blinded=%v players=%v: %s", pk.name, cfg.l, cfg.k, cfg.cache, cfg.blnd, players, marshalErr),
+				map[string]interface{}{"cfg": ci})
+			return
+		}
 		// phase 2: every message's shares are combined by K goroutines at once on the one shared slice
 		for i, j := range jobs {
 			vlib.Eval(sub)
